@@ -292,92 +292,113 @@ def rule_state(ctx):
     ctx.units["C18.defaults_examined"] = shared_defaults(ctx, "C18.state", ["yowsup/stacks/", "yowsup/layers/__init__.py", "yowsup/layers/interface/"])
 
 
+def _stub_layer(repo, name, layer=True):
+    from ..repo import ClassInfo
+    base = repo.cls(LAYERS, "YowLayer")
+    node = ast.parse("class %s(%s):\n    pass\n" % (name, "YowLayer" if layer else "object")).body[0]
+    k = ClassInfo(base.module, node)
+    k.bases = [base] if layer else []
+    k._mro = [k] + (list(repo.mro(base)) if layer else [])
+    return k
+
+
+def run_stack(repo, arr, reversed_=None):
+    """abstract execution of YowStack(arr[, reversed]) -> (stack object, interpreter, list of instances or None, raised)"""
+    from ..absint import Interp, Obj, _Raise, C_NONE
+    st = repo.cls(YS, "YowStack")
+    par = repo.cls(LAYERS, "YowParallelLayer")
+
+    def construct(itp, c, a, k, env, d, e):
+        if c is par:
+            o = Obj(par)
+            o.fields["@group_of"] = a[0] if a else C_NONE
+            return ("obj", o)
+        return None
+    hooks = {"construct": construct, "ext:*.isclass": lambda itp, recv, a, k, env, d, e: ("c", bool(a) and a[0][0] == "cls"),
+             "ext:*.randint": lambda itp, recv, a, k, env, d, e: ("c", 0)}
+    it = Interp(repo, {}, {}, hooks=hooks)
+    o = Obj(st)
+    kk, init = repo.find_method(st, "__init__")
+    raised = None
+    try:
+        it.call_function(init, kk, ("obj", o), [arr] + ([("c", reversed_)] if reversed_ is not None else []), {}, depth=0)
+    except _Raise as r:
+        raised = r.text
+    insts = None
+    for name, v in o.fields.items():
+        if name.endswith("stackInstances") and v[0] == "list":
+            insts = v[1]
+    return o, it, insts, raised
+
+
 def rule_wire(ctx):
+    """YowStack's constructor, abstractly executed on a stack of three layer classes, a tuple of two and a ready-made
+    instance: one instance per element in the given order (reversed when asked), the tuple becomes a parallel group, the
+    instance is taken as it is; instance i gets i+1 as upper and i-1 as lower (None at the ends); anything that is not a
+    layer is refused; send enters at the top instance and receive at the bottom one"""
+    from ..absint import Obj, C_NONE, _Raise
     repo = ctx.repo
     st = repo.cls(YS, "YowStack")
     fn = repo.method(YS, "YowStack", "_construct")
     w = where(YS, "YowStack._construct", fn.lineno)
     sl = repo.method(LAYERS, "YowLayer", "setLayers")
-    ps = params_of(sl)
-    # setLayers(upper, lower) stores them in order
-    assigns = {unparse(n.targets[0]): unparse(n.value) for n in ast.walk(sl) if isinstance(n, ast.Assign)}
-    ctx.check("C18.wire", len(ps) == 2 and assigns.get("self.__upper") == ps[0] and assigns.get("self.__lower") == ps[1],
-              where(LAYERS, "YowLayer.setLayers", sl.lineno), "setLayers(%s)" % ", ".join(ps), "setLayers must store (upper, lower) in that order: %s" % assigns, "stores upper, lower")
-    ev = Evaluator(repo, st.module, st)
-    # wiring loop
-    loop = None
-    for n in ast.walk(fn):
-        if isinstance(n, ast.For) and any(isinstance(c, ast.Call) and isinstance(c.func, ast.Attribute) and c.func.attr == "setLayers" for c in ast.walk(n)):
-            loop = n
-    if loop is None:
-        ctx.undecided("C18.wire", w, fn, "wiring loop (for ... setLayers) not found")
-        return
-    i = loop.target.id if isinstance(loop.target, ast.Name) else None
-    defs = {}
-    call = None
-    for s in loop.body:
-        if isinstance(s, ast.Assign) and isinstance(s.targets[0], ast.Name):
-            defs[s.targets[0].id] = s.value
-        for c in ast.walk(s):
-            if isinstance(c, ast.Call) and isinstance(c.func, ast.Attribute) and c.func.attr == "setLayers":
-                call = c
+    par = repo.cls(LAYERS, "YowParallelLayer")
+    A, B, C, D, E = [_stub_layer(repo, n) for n in ("StubA", "StubB", "StubC", "StubD", "StubE")]
+    ready = Obj(E)
+    for rev in (False, True, None):
+        given = [("cls", A), ("cls", B), ("list", [("cls", C), ("cls", D)], False, "tuple"), ("obj", ready)]
+        arr = ("list", list(given))
+        o, it, insts, raised = run_stack(repo, arr, rev)
+        label = "reversed=%s" % ("default" if rev is None else rev)
+        if raised or insts is None:
+            ctx.violate("C18.wire", w, "stack of 3 classes, a tuple and an instance (%s)" % label, "the constructor %s" % ("raises " + raised if raised else "keeps no instance list"))
+            continue
+        order = given[::-1] if rev in (True, None) else given
 
-    def neighbour(e):
-        """-> (offset, guard ok) for `inst[i+k] if guard else None`"""
-        if isinstance(e, ast.Name) and e.id in defs:
-            e = defs[e.id]
-        if isinstance(e, ast.IfExp) and isinstance(e.orelse, ast.Constant) and e.orelse.value is None and isinstance(e.body, ast.Subscript):
-            idx = linear.lin(e.body.slice, ev)
-            if idx is None or idx.get(i) != 1:
-                return None
-            off = idx.get(1, 0)
-            cn = linear.cmp_normal(e.test, ev)
-            guard = False
-            if cn is not None:
-                l, op = cn
-                lens = [k for k in l if isinstance(k, str) and k.startswith("len(")]
-                if off > 0 and lens:
-                    # len - i - off > 0  <=>  i + off < len
-                    guard = (op == ">" and l.get(lens[0]) == 1 and l.get(i) == -1 and l.get(1, 0) == -off) or \
-                            (op == ">=" and l.get(lens[0]) == 1 and l.get(i) == -1 and l.get(1, 0) == -off - 1)
-                elif off < 0:
-                    # i + off >= 0
-                    guard = (op == ">" and l.get(i) == 1 and l.get(1, 0) == off + 1 and len(l) <= 2) or \
-                            (op == ">=" and l.get(i) == 1 and l.get(1, 0) == off and len(l) <= 2)
-            return off, guard
-        return None
-    if call is None or len(call.args) != 2:
-        ctx.undecided("C18.wire", w, loop, "setLayers(upper, lower) call not found in the wiring loop")
-        return
-    up, lo = neighbour(call.args[0]), neighbour(call.args[1])
-    recv = linear.lin(call.func.value.slice, ev) if isinstance(call.func.value, ast.Subscript) else None
-    ctx.check("C18.wire", up == (1, True) and lo == (-1, True) and recv is not None and recv.get(i) == 1 and recv.get(1, 0) == 0,
-              where(YS, "YowStack._construct", call.lineno), call,
-              "layer i must get instance i+1 as upper (None at the top) and i-1 as lower (None at the bottom); found upper=%s lower=%s" % (up, lo), "upper = i+1, lower = i-1, bounds guarded")
-    # instantiation loop: tuples -> YowParallelLayer, non-layers rejected, order preserved (append)
-    src = unparse(fn)
-    tup = any(isinstance(n, ast.If) and "tuple" in unparse(n.test) and any(isinstance(c, ast.Call) and unparse(c.func) == "YowParallelLayer" for s in n.body for c in ast.walk(s)) for n in ast.walk(fn))
-    ctx.check("C18.wire", tup, w, "tuple -> YowParallelLayer", "a tuple of layers must become a parallel group", "tuples become parallel groups")
-    raises = [n for n in ast.walk(fn) if isinstance(n, ast.Raise)]
-    ctx.check("C18.wire", len(raises) >= 1 and "issubclass" in src, w, "non-layers rejected", "objects that are not YowLayer subclasses/instances must be rejected", "non-layers raise ValueError")
-    appends = [n for n in ast.walk(fn) if isinstance(n, ast.Call) and isinstance(n.func, ast.Attribute) and n.func.attr in ("append", "insert")]
-    ctx.check("C18.wire", len(appends) == 1 and appends[0].func.attr == "append", w, "instances appended in stack order", "instances must be appended in iteration order", "append in order")
-    # reversed handling in __init__
-    init = repo.method(YS, "YowStack", "__init__")
-    okrev = False
-    for n in ast.walk(init):
-        if isinstance(n, ast.IfExp) and isinstance(n.test, ast.Name) and n.test.id == "reversed":
-            okrev = unparse(n.body).endswith("[::-1]") and isinstance(n.orelse, ast.Name)
-    ctx.check("C18.wire", okrev, where(YS, "YowStack.__init__", init.lineno), "order convention (reversed)", "`reversed=True` must reverse the given sequence and False keep it", "reversed -> [::-1]")
-    # stack entry points
-    for name, idx in (("send", -1), ("receive", 0)):
-        m = repo.method(YS, "YowStack", name)
-        ok = False
-        for n in ast.walk(m):
-            if isinstance(n, ast.Call) and isinstance(n.func, ast.Attribute) and n.func.attr == name and isinstance(n.func.value, ast.Subscript):
-                a = linear.lin(n.func.value.slice, ev)
-                ok = a is not None and linear.const_of(a) == idx
-        ctx.check("C18.wire", ok, where(YS, "YowStack." + name, m.lineno), "YowStack.%s enters at instance %d" % (name, idx), "stack.%s must enter at the %s layer" % (name, "top" if idx == -1 else "bottom"), "enters at index %d" % idx)
+        def matches(inst, want):
+            if inst[0] != "obj":
+                return False
+            if want[0] == "cls":
+                return inst[1].cls is want[1]
+            if want[0] == "obj":
+                return inst[1] is want[1]
+            return inst[1].cls is par and inst[1].fields.get("@group_of") is not None and inst[1].fields["@group_of"][:2] == want[:2]
+        ok_order = len(insts) == len(order) and all(matches(i_, w_) for i_, w_ in zip(insts, order))
+        ctx.check("C18.wire", ok_order, w, "one instance per element, in order (%s)" % label,
+                  "instances must be created in the order of the given sequence (reversed when `reversed` is true, the default), a tuple becoming a parallel group and an instance being taken as it is; got %s" % [x[1].cls.name if x[0] == "obj" and x[1].cls else x[0] for x in insts],
+                  "instances in stack order; tuples become parallel groups")
+        if not ok_order:
+            continue
+        bad = []
+        for i, inst in enumerate(insts):
+            up = [v for k_, v in inst[1].fields.items() if k_.endswith("__upper")]
+            lo = [v for k_, v in inst[1].fields.items() if k_.endswith("__lower")]
+            wu = insts[i + 1] if i + 1 < len(insts) else C_NONE
+            wl = insts[i - 1] if i > 0 else C_NONE
+            if len(up) != 1 or len(lo) != 1 or not ((up[0] == wu) if wu == C_NONE else (up[0][0] == "obj" and up[0][1] is wu[1])) or not ((lo[0] == wl) if wl == C_NONE else (lo[0][0] == "obj" and lo[0][1] is wl[1])):
+                bad.append("instance %d" % i)
+        ctx.check("C18.wire", not bad, w, "upper = i+1, lower = i-1 (%s)" % label,
+                  "layer i must get instance i+1 as upper (None at the top) and i-1 as lower (None at the bottom); wrong for %s" % ", ".join(bad), "upper = i+1, lower = i-1, ends None")
+        if rev is False:
+            # entry points
+            for name, idx in (("send", -1), ("receive", 0)):
+                m = repo.method(YS, "YowStack", name)
+                hit = []
+                it.hooks["method:" + name] = lambda itp, recv, a, k, env, d, e, hit=hit: (hit.append(recv), C_NONE)[1] if recv[0] == "obj" and recv[1].cls is not st else None
+                try:
+                    it.call_function(m, st, ("obj", o), [("ext", "data", [])], {}, depth=0)
+                except _Raise:
+                    pass
+                ok = len(hit) == 1 and hit[0][0] == "obj" and hit[0][1] is insts[idx][1]
+                ctx.check("C18.wire", ok, where(YS, "YowStack." + name, m.lineno), "YowStack.%s enters at instance %d" % (name, idx), "stack.%s must enter at the %s layer" % (name, "top" if idx == -1 else "bottom"), "enters at index %d" % idx)
+    # anything that is not a layer class / instance / tuple is refused
+    notlayer = _stub_layer(repo, "NotALayer", layer=False)
+    refused = []
+    for badval, what in ((("cls", notlayer), "a class that is not a layer"), (("obj", Obj(notlayer)), "an object that is not a layer"), (("c", 5), "a number")):
+        o, it, insts, raised = run_stack(repo, ("list", [("cls", A), badval]), False)
+        if not raised:
+            refused.append(what)
+    ctx.check("C18.wire", not refused, w, "non-layers rejected", "objects that are not YowLayer subclasses/instances must be rejected; accepted: %s" % ", ".join(refused), "non-layers raise")
     # builder push/pop/build
     b = repo.cls(YS, "YowStackBuilder")
     push, pop, build = b.methods.get("push"), b.methods.get("pop"), b.methods.get("build")
@@ -470,36 +491,78 @@ def rule_mirror(ctx):
 
 def rule_stop(ctx):
     repo = ctx.repo
+    from ..absint import Interp, Obj, _Raise, C_NONE, flat_effects
+    base = repo.cls(LAYERS, "YowLayer")
+    evc = repo.cls(LAYERS, "YowLayerEvent")
+    # emitEvent / broadcastEvent, abstractly executed against a neighbour whose onEvent answers True / False, for a plain and
+    # a detached event, and without a neighbour: propagation continues - exactly once - iff the neighbour exists and did not
+    # consume the event; a detached event is first un-detached and then handed to the stack's deferred queue
     for name, nb in (("emitEvent", "__upper"), ("broadcastEvent", "__lower")):
         fn = repo.method(LAYERS, "YowLayer", name)
         w = where(LAYERS, "YowLayer." + name, fn.lineno)
-        top = [s for s in fn.body if isinstance(s, ast.If)]
-        if len(top) != 1:
-            ctx.undecided("C18.stop", w, fn, "expected a single guarding if")
+        bad_guard, bad_det, problem = [], [], None
+        for has_nb in (True, False):
+            for consumed in ((True, False) if has_nb else (False,)):
+                for detached in (False, True):
+                    log = []
+                    neighbour = ("obj", Obj(_stub_layer(repo, "Neighbour")))
+
+                    def on_event(itp, recv, a, k, env, d, e, neighbour=neighbour, consumed=consumed, log=log):
+                        if recv[0] == "obj" and recv[1] is neighbour[1]:
+                            log.append(("asked", a[0] if a else None))
+                            return ("c", consumed)
+                        return None
+
+                    def cont(itp, recv, a, k, env, d, e, neighbour=neighbour, log=log):
+                        if recv[0] == "obj" and recv[1] is neighbour[1]:
+                            flag = a[0][1].fields.get("detached") if a and a[0][0] == "obj" else None
+                            log.append(("continued", a[0] if a else None, flag))
+                            return C_NONE
+                        return None
+                    it = Interp(repo, {}, {}, hooks={"method:onEvent": on_event, "method:" + name: cont, "method:getStack": lambda itp, recv, a, k, env, d, e: ("ext", "stack", [])})
+                    me = Obj(_stub_layer(repo, "Me"))
+                    me.fields["_YowLayer" + nb] = neighbour if has_nb else C_NONE
+                    me.fields["_YowLayer" + ("__lower" if nb == "__upper" else "__upper")] = C_NONE
+                    ev = Obj(evc)
+                    ev.fields.update({"name": ("c", "x"), "detached": ("c", detached), "args": ("dict", {})})
+                    try:
+                        it.call_function(fn, base, ("obj", me), [("obj", ev)], {}, depth=0)
+                    except _Raise as r:
+                        problem = "raises %s (neighbour=%s consumed=%s detached=%s)" % (r.text[:50], has_nb, consumed, detached)
+                        continue
+                    deferred = [e for e in flat_effects(it.effects) if e[0] == "CALL" and e[1] == "stack.execDetached"]
+                    direct = [x for x in log if x[0] == "continued"]
+                    want = has_nb and not consumed
+                    case = "neighbour %s, %s, event %s" % ("present" if has_nb else "absent", "consumed" if consumed else "not consumed", "detached" if detached else "plain")
+                    if not want:
+                        if direct or deferred:
+                            bad_guard.append(case + ": propagation continues")
+                        continue
+                    if has_nb and [x for x in log if x[0] == "asked"][:1] != [("asked", ("obj", ev))]:
+                        bad_guard.append(case + ": the neighbour's onEvent is not asked with the event")
+                    if not detached:
+                        if len(direct) != 1 or deferred or direct[0][1] != ("obj", ev):
+                            bad_guard.append(case + ": %d direct and %d deferred continuation(s)" % (len(direct), len(deferred)))
+                        continue
+                    if direct or len(deferred) != 1 or not deferred[0][2]:
+                        bad_det.append(case + ": %d direct and %d deferred continuation(s)" % (len(direct), len(deferred)))
+                        continue
+                    cleared = ev.fields.get("detached") == ("c", False)
+                    try:
+                        it.apply(deferred[0][2][0], [], {}, {}, 0, None)
+                    except _Raise as r:
+                        bad_det.append(case + ": the deferred callback raises " + r.text[:40])
+                        continue
+                    later = [x for x in log if x[0] == "continued"]
+                    if not (cleared and len(later) == 1 and later[0][1] == ("obj", ev) and later[0][2] == ("c", False)):
+                        bad_det.append(case + ": flag cleared=%s, deferred callback continues %d time(s)" % (cleared, len(later)))
+        if problem:
+            ctx.undecided("C18.stop", w, fn, problem)
             continue
-        t = top[0].test
-        ok = isinstance(t, ast.BoolOp) and isinstance(t.op, ast.And) and len(t.values) == 2 and unparse(t.values[0]).endswith(nb) \
-            and isinstance(t.values[1], ast.UnaryOp) and isinstance(t.values[1].op, ast.Not) and isinstance(t.values[1].operand, ast.Call) \
-            and unparse(t.values[1].operand.func).endswith(nb + ".onEvent")
-        ctx.check("C18.stop", ok, w, top[0], "propagation must continue only when the neighbour exists and its onEvent returned a false value", "continue iff neighbour and not neighbour.onEvent(ev)")
-        # every continuation is inside the guard; each path forwards exactly once
-        conts = [c for c in ast.walk(fn) if isinstance(c, ast.Call) and isinstance(c.func, ast.Attribute) and c.func.attr == name]
-        inside = [c for c in ast.walk(top[0]) if isinstance(c, ast.Call) and isinstance(c.func, ast.Attribute) and c.func.attr == name]
-        ctx.check("C18.stop", len(conts) == len(inside) == 2, w, "continuations inside the guard", "a continuation escapes the stop guard (%d of %d inside)" % (len(inside), len(conts)), "both continuations guarded")
-        det = [s for s in top[0].body if isinstance(s, ast.If)]
-        okd = False
-        if len(det) == 1 and "isDetached" in unparse(det[0].test):
-            body = det[0].body
-            clears = any(isinstance(s, ast.Assign) and unparse(s.targets[0]).endswith(".detached") and unparse(s.value) == "False" for s in body)
-            defer = [c for s in body for c in ast.walk(s) if isinstance(c, ast.Call) and isinstance(c.func, ast.Attribute) and c.func.attr == "execDetached"]
-            lam = defer and isinstance(defer[0].args[0], ast.Lambda) and isinstance(defer[0].args[0].body, ast.Call) and defer[0].args[0].body.func.attr == name \
-                and unparse(defer[0].args[0].body.func.value).endswith(nb)
-            direct = [c for s in det[0].orelse for c in ast.walk(s) if isinstance(c, ast.Call) and isinstance(c.func, ast.Attribute) and c.func.attr == name]
-            # the clear must precede the hand-off
-            order = clears and defer and [i for i, s in enumerate(body) if isinstance(s, ast.Assign)][0] < [i for i, s in enumerate(body) if any(c is defer[0] for c in ast.walk(s))][0]
-            okd = bool(clears and lam and len(direct) == 1 and order)
-        ctx.check("C18.stop", okd, w, "detached hand-off in " + name,
-                  "a detached event must clear its flag and be deferred through execDetached(lambda: neighbour.%s(ev)); otherwise continue directly" % name, "flag cleared, deferred once, else direct")
+        ctx.check("C18.stop", not bad_guard, w, "continue iff neighbour and not neighbour.onEvent(ev)", "propagation must continue only when the neighbour exists and its onEvent returned a false value: " + "; ".join(bad_guard[:2]), "continue iff neighbour and not neighbour.onEvent(ev)")
+        ctx.check("C18.stop", not bad_guard, w, "continuations inside the guard", "a continuation escapes the stop guard: " + "; ".join(bad_guard[:2]), "one continuation per path, all guarded")
+        ctx.check("C18.stop", not bad_det, w, "detached hand-off in " + name,
+                  "a detached event must clear its flag and be deferred through execDetached(lambda: neighbour.%s(ev)); otherwise continue directly: %s" % (name, "; ".join(bad_det[:2])), "flag cleared, deferred once, else direct")
     # onEvent dispatch returns the callback's result, False otherwise
     oe = repo.method(LAYERS, "YowLayer", "onEvent")
     rets = [n for n in ast.walk(oe) if isinstance(n, ast.Return)]
